@@ -94,6 +94,9 @@ type Kernel struct {
 	NoTrace   bool
 	FaultHits int
 	NoTmpfile bool // O_TMPFILE answers EOPNOTSUPP (a filesystem without unnamed temporary files)
+	// FaultNames: every call of this name fails with this errno (a persistent condition, unlike Faults)
+	FaultNames map[string]Errno
+	MaxCalls   int // panic beyond this many calls (0: no limit)
 }
 
 // K is the kernel the package-level functions operate on.
@@ -150,10 +153,16 @@ func (k *Kernel) enter(name string, args ...any) (idx int, f Fault, faulted bool
 	csched.Yield("sys:" + name)
 	idx = k.NCalls
 	k.NCalls++
+	if k.MaxCalls > 0 && k.NCalls > k.MaxCalls {
+		panic(fmt.Sprintf("simunix: more than %d system calls in one run (a retry loop that never ends?)", k.MaxCalls))
+	}
 	if k.OnCall != nil {
 		k.OnCall(k, idx, name)
 	}
 	f, faulted = k.Faults[idx]
+	if e, ok := k.FaultNames[name]; ok && !faulted {
+		f, faulted = Fault{Err: e}, true
+	}
 	if faulted {
 		k.FaultHits++
 	}
